@@ -32,6 +32,8 @@ def run(ctx):
     n = 500 if ctx.tier == "quick" else 10000
     core.generic_corr(ctx, overlay=ov, pkg="internal/msgpipeline", run="TestVerif_C06", n=n,
                       corr_module="Pipeline.ChecksCorr", clause_names=CLAUSES, name="checks", shard=125)
+    core.generic_corr(ctx, overlay=ov, pkg="internal/msgpipeline", run="TestVerif_C06Repeat", n=0,
+                      corr_module="Pipeline.ChecksCorr", clause_names=CLAUSES, name="repeated_rcpt")
     core.generic_corr(ctx, overlay=ov, pkg="internal/target/remote", run="TestVerif_C06Remote", n=20,
                       corr_module="Pipeline.ChecksCorr", clause_names=CLAUSES, name="remote", shard=100)
     ctx.coverage["rule"] = ("1-4 scripted checks over global / source / 1-3 destination blocks (shared instances allowed), 0-3 "
